@@ -11,7 +11,12 @@ PROP = dict(
                    "and that only recognised fields can be written. The model is tied to the real Meta.scanFields / tag-scan processors on "
                    "every run by comparing, for thousands of runtime-built struct types (reflect.StructOf) and hand-written static types, the "
                    "real definition registry's Fields and Properties after app.Run with the Lean driver's output; sentinel read-back, "
-                   "re-nesting equality and a recording processor are checked on the real code independently of the model.",
+                   "re-nesting equality and a recording processor are checked on the real code independently of the model. "
+                   "A component that is ITSELF a non-lazy user post-processor is created inside the registration loop of InvokeBeanFactoryPostProcessors: "
+                   "`Scan.populateLoop` models that loop with the chain each created processor is populated by (= the processors sorted ahead of it, "
+                   "C11_holder_chain); a holder the ordering contract lets ahead of nobody is populated by every other processor, i.e. by the chain of "
+                   "a plain component (C11_holder_like_plain, for any sort meeting C12's SortSpec); tied by Go-declared processor holders whose field "
+                   "values must equal those of their plain twins (scan-holder-kind) and by the observed recorder calls (` pp rec=`).",
         level_note="Modelled, not verified: reflect's CanSet rule (settable iff the field itself is exported when reached through anonymous "
                    "structs from an addressable root), reflect.StructTag.Lookup as a first-match pair list, the fixed order of "
                    "t.Field(i). `writes` = fields owning a Property: a processor can only write through property.Value; a user processor "
@@ -45,12 +50,28 @@ PROP = dict(
              "members (tagged embedded struct, embedded pointer, untagged embedded struct = descended); labels mark-ptrrecv-byvalue[-embedded] (by value, pointer receiver, no prefix tag: NO configuration point; "
              "~75% / ~50% of these cases), mark-ptrrecv-byvalue-foreign-tag, mark-ptrrecv-pointer, mark-valrecv-byvalue, mark-valrecv-pointer, mark-prefix-tagged; oracles: scan-frame (sentinels) as before, and "
              "scan-frame-start: the same units WITHOUT those the property calls untouched (unexported / untagged and no marker / unrecognised tags only) end Run with the same outcome; "
+             "ninth round (HOLDERS THAT ARE THEMSELVES POST-PROCESSORS, corpus only: reflect.StructOf types have no methods): Go-declared static types X28-X36 — "
+             "five holders implementing container.ComponentPostProcessor (embedding *processors.DefaultComponentPostProcessor by POINTER = one more unit, left nil; "
+             "explicit methods, Order() = 100; processors.DefaultInstantiationAwareComponentPostProcessor embedded BY VALUE = descended into, two empty levels, an active processor "
+             "with Order() = MaxInt; *processors.DefaultInstantiationAwareComponentPostProcessor by pointer, pre-set; explicit methods with every field direct, Order() = 51), "
+             "each carrying value / prop / prefix / wire / func / logger / custom-tag fields directly and one / two / three embedded levels down next to unexported, untagged and "
+             "foreign-tagged ones, their PLAIN twins of the same nesting and the flat twins; mode token X<k>@<cls>[<order>] read off the type's method set; in these runs the recorder is "
+             "Ordered (50: behind the built-in processors, ahead of the holder); oracle scan-holder-kind: holder and plain twin end Run with the same outcome and, unit by unit, the same "
+             "values (the plumbing unit exists on the holder only and falls under scan-frame), all other oracles unchanged, every failing verdict reported; observation suffix ` pp rec=<c>` = "
+             "recorder calls for the holder, predicted by the model from the sorted registration (Facts.builtinProcessors + recorder + holder); labels holder-processor, holder-processor-u/-o; "
              "non-trivial = at least one embedded level and at least one recognised exported unit; distinct = distinct scenario lines",
         trusted_base=COMMON_TB + ["the `marker` input of the model (the field implements ConfigurationProperties, with its Prefix()) is read off the field's static type by the harness with reflect.Type.Implements — Go's method sets: "
                                   "T for a by-value field, *T for a pointer field — not by the library's own type assertion",
                                   "reflect.StructOf builds types that reflect treats like compiled ones (checked against 4 compiled static types in the corpus)",
-                                  "the harness recovers field paths from the real Holder chain by address (zero-size embedded structs have no fields, so no ambiguity)"],
+                                  "the harness recovers field paths from the real Holder chain by address (zero-size embedded structs have no fields, so no ambiguity)",
+                                  "processor holders: the mode token (@u / @o<order> / @p<order>) is read off the holder type's method set by the harness (container.ComponentPostProcessor, "
+                                  "definition.Ordered, definition.Priority), the recorder's Order() = 50 is a constant of harness and driver; the driver sorts with insertion sort "
+                                  "(the keys of holder and recorder differ from every other key, so ties do not matter)"],
         assumptions=["the component is registered by pointer (addressable root), as the container requires",
+                     "a holder that is itself a post-processor is compared with its plain twin only when it is non-lazy and sorted behind every built-in processor (not Ordered, or Ordered "
+                     "without Priority and with an Order() above theirs): a processor is populated by the processors sorted AHEAD of it (C11_holder_chain) — a priority-ordered holder, or one "
+                     "ordered ahead of a built-in processor, is served without the later ones on the unchanged library (examples next to C11_holder_like_plain), a LazyInit processor is never "
+                     "populated; Scan.populateLoop covers a processor first requested by the loop itself (not one created earlier as a dependency of another processor)",
                      "C11_flatten_props: ExtractHandlers look at the field's declaration/value, not at its holder chain (proved for the built-in ones)",
                      "a failed start (Run error) is compared by outcome only: where population stops depends on Go map order",
                      "a pointer field whose type has a VALUE-receiver Prefix() is never nil when the container starts: the unchanged library asks the nil pointer for its prefix in a goroutine of its own and "
